@@ -6,7 +6,12 @@
    faults, either class, with any partial write.  [w_catch_base c = true] is the repaired handler
    (`except BaseException`), [false] the pinned source (`except Exception`).
    The one operating-system fact the model assumes is that rename/replace is ONE transition ([os_move]); it is
-   part of the model, not a Coq hypothesis, and is listed in the harness' TRUSTED.  *)
+   part of the model, not a Coq hypothesis, and is listed in the harness' TRUSTED.
+   SHORT writes ([w_short]: the OS accepts only a prefix of submission j and reports the count) are ARBITRARY too
+   wherever [keeps c] is assumed: [keeps c] = the handle submits the remainder again ([w_retry c = true], what the
+   io.BufferedWriter of `open(tmppath, 'wb')` does) or there are no short writes.  The big-step reading [wresult]
+   does not know short writes; the theorems that mention it assume [w_short c = []], and their short-write
+   counterparts (..._short) are stated on the machine's own outcome.  *)
 From V Require Import lib.PyBase model.Textfile proofs.TextfileProofs.
 Import TF.
 Open Scope N_scope.
@@ -21,10 +26,19 @@ Theorem C18_tmp_is_not_target : forall p a b, tmp_name p a b <> p.
 Proof. exact tmp_name_ne_path. Qed.
 Print Assumptions C18_tmp_is_not_target.
 
+(* for EVERY spelling of the path (bare file name, ./x, ../d/x, absolute, odd components) the temporary path names
+   a file of the same directory as the target, called <base name>.pid.tid: the rename never leaves the directory *)
+Theorem C18_tmp_same_directory : forall p a b,
+  dir_of (tmp_name p a b) = dir_of p /\ base_of (tmp_name p a b) = tmp_name (base_of p) a b
+  /\ has_slash (base_of (tmp_name p a b)) = false.
+Proof. exact tmp_same_directory. Qed.
+Print Assumptions C18_tmp_same_directory.
+
 (* --- one call --- *)
 (* at EVERY cut point of EVERY run (any faults, any classes, either handler, any initial directory) the target holds
    its previous content (or is still absent) or the complete new exposition *)
 Theorem C18_target_old_or_new : forall c f0 n,
+  keeps c ->
   let f := snd (wsteps c n winit f0) in
   fs_find f (w_path c) = fs_find f0 (w_path c)
   \/ exists d, w_new c = Some d /\ fs_find f (w_path c) = Some d.
@@ -45,7 +59,7 @@ Print Assumptions C18_terminates.
 
 (* the caller sees exactly the error of the big-step reading [wresult] (first error of open / body / rename, a close
    error replacing the one in flight), provided the handler's own two calls are not faulted as well *)
-Theorem C18_error_reaches_caller : forall c f0, nhf c -> outcome (fst (wfinal c f0)) = Some (wresult c).
+Theorem C18_error_reaches_caller : forall c f0, w_short c = [] -> nhf c -> outcome (fst (wfinal c f0)) = Some (wresult c).
 Proof. exact outcome_is_wresult. Qed.
 Print Assumptions C18_error_reaches_caller.
 
@@ -79,19 +93,29 @@ Print Assumptions C18_encode_error.
 (* REPAIRED handler: whenever the call raises - whatever the class - the directory is exactly as before (minus a stale
    file of the same temporary name, if there was one): target unchanged, no temporary file, and the error is e *)
 Theorem C18_raise_cleans : forall c f0 e,
-  w_catch_base c = true -> nhf c -> wresult c = Some e ->
+  w_short c = [] -> w_catch_base c = true -> nhf c -> wresult c = Some e ->
   outcome (fst (wfinal c f0)) = Some (Some e) /\ fs_same (snd (wfinal c f0)) (fs_remove f0 (w_tmp c)).
 Proof.
-  exact (fun c f0 e Hb Hn Hr => raise_cleans c f0 e Hn Hr
+  exact (fun c f0 e Hno Hb Hn Hr => raise_cleans c f0 e Hno Hn Hr
            (match e as e' return catches c e' = true with (s, EExc) => eq_refl | (s, EBase) => Hb end)).
 Qed.
 Print Assumptions C18_raise_cleans.
 
+(* the same with ANY short writes in the run (retried): whatever error the call ends with, the directory is as before *)
+Theorem C18_raise_cleans_short : forall c f0 e,
+  keeps c -> w_catch_base c = true -> nhf c -> outcome (fst (wfinal c f0)) = Some (Some e) ->
+  fs_same (snd (wfinal c f0)) (fs_remove f0 (w_tmp c)).
+Proof.
+  exact (fun c f0 e Hk Hb Hn Ho => raise_cleans_gen c f0 e Hk Hn Ho
+           (match e as e' return catches c e' = true with (s, EExc) => eq_refl | (s, EBase) => Hb end)).
+Qed.
+Print Assumptions C18_raise_cleans_short.
+
 (* PINNED source (`except Exception`): the same holds for Exception-class errors only ... *)
 Theorem C18_raise_cleans_orig_partial : forall c f0 s,
-  w_catch_base c = false -> nhf c -> wresult c = Some (s, EExc) ->
+  w_short c = [] -> w_catch_base c = false -> nhf c -> wresult c = Some (s, EExc) ->
   outcome (fst (wfinal c f0)) = Some (Some (s, EExc)) /\ fs_same (snd (wfinal c f0)) (fs_remove f0 (w_tmp c)).
-Proof. exact (fun c f0 s _ Hn Hr => raise_cleans c f0 (s, EExc) Hn Hr eq_refl). Qed.
+Proof. exact (fun c f0 s Hno _ Hn Hr => raise_cleans c f0 (s, EExc) Hno Hn Hr eq_refl). Qed.
 Print Assumptions C18_raise_cleans_orig_partial.
 
 (* ... and fails for a collector raising KeyboardInterrupt: the temporary file stays (finding F16) *)
@@ -104,11 +128,46 @@ Print Assumptions C18_raise_cleans_orig_refuted.
 
 (* returning: the target holds the complete new exposition, the temporary file is gone, nothing else changed *)
 Theorem C18_return_installs : forall c f0,
-  nhf c -> wresult c = None ->
+  w_short c = [] -> nhf c -> wresult c = None ->
   exists d, w_new c = Some d /\ outcome (fst (wfinal c f0)) = Some None
             /\ fs_same (snd (wfinal c f0)) (fs_set (fs_remove f0 (w_tmp c)) (w_path c) d).
 Proof. exact return_installs. Qed.
 Print Assumptions C18_return_installs.
+
+(* the same with ANY short writes in the run (retried): a call that returns has installed the complete exposition *)
+Theorem C18_return_installs_short : forall c f0,
+  keeps c -> nhf c -> outcome (fst (wfinal c f0)) = Some None ->
+  exists d, w_new c = Some d /\ outcome (fst (wfinal c f0)) = Some None
+            /\ fs_same (snd (wfinal c f0)) (fs_set (fs_remove f0 (w_tmp c)) (w_path c) d).
+Proof. exact return_installs_gen. Qed.
+Print Assumptions C18_return_installs_short.
+
+(* --- short writes --- *)
+(* short writes ALONE, at any submissions, any lengths, retried by the handle: the call returns and the complete
+   exposition is installed - not a byte is lost, nothing is left behind *)
+Theorem C18_short_writes_harmless : forall c f0 d,
+  w_retry c = true -> w_plan c = [] -> w_new c = Some d ->
+  outcome (fst (wfinal c f0)) = Some None
+  /\ fs_same (snd (wfinal c f0)) (fs_set (fs_remove f0 (w_tmp c)) (w_path c) d).
+Proof. exact short_writes_harmless. Qed.
+Print Assumptions C18_short_writes_harmless.
+
+(* whatever the handle does about short writes: until the call RETURNS the target shows its previous content *)
+Theorem C18_target_untouched_unless_returned : forall c f0 n,
+  w_pc (fst (wsteps c n winit f0)) <> PDone None ->
+  fs_find (snd (wsteps c n winit f0)) (w_path c) = fs_find f0 (w_path c).
+Proof. exact target_untouched_unless_returned. Qed.
+Print Assumptions C18_target_untouched_unless_returned.
+
+(* C18_target_old_or_new needs [keeps]: a handle that does not submit the remainder again (buffering=0 and the
+   result of write() ignored) returns normally with a strict prefix of the exposition installed over the target *)
+Theorem C18_short_write_dropped_refuted :
+  exists c f0 d, w_retry c = false /\ w_plan c = [] /\ w_new c = Some d
+    /\ fs_find f0 (w_path c) = Some (s2l "old")
+    /\ outcome (fst (wfinal c f0)) = Some None
+    /\ fs_find (snd (wfinal c f0)) (w_path c) = Some (firstn 4 d) /\ firstn 4 d <> d /\ firstn 4 d <> s2l "old".
+Proof. exact short_write_dropped. Qed.
+Print Assumptions C18_short_write_dropped_refuted.
 
 (* os.replace on nt, os.rename elsewhere: every run is step for step the same on both kinds of platform *)
 Theorem C18_platform_independent : forall b c n s f, wsteps (set_nt b c) n s f = wsteps c n s f.
@@ -117,7 +176,7 @@ Print Assumptions C18_platform_independent.
 
 (* --- several concurrent calls (threads or processes) with distinct (pid, tid), ANY schedule, ANY faults --- *)
 Theorem C18_writers_target : forall path f0 cs sched,
-  (forall c, In c cs -> w_path c = path) -> NoDup (map (fun c => (w_pid c, w_tid c)) cs) ->
+  (forall c, In c cs -> w_path c = path) -> (forall c, In c cs -> keeps c) -> NoDup (map (fun c => (w_pid c, w_tid c)) cs) ->
   let f := snd (srun sched (sinit cs) f0) in
   fs_find f path = fs_find f0 path \/ exists c d, In c cs /\ w_new c = Some d /\ fs_find f path = Some d.
 Proof. exact writers_target. Qed.
@@ -127,11 +186,12 @@ Print Assumptions C18_writers_target.
    handler catches, its temporary file is gone; once any writer returned the target is a complete NEW exposition;
    files that are neither the target nor a writer's temporary are untouched *)
 Theorem C18_writers_end : forall path f0 cs sched,
-  (forall c, In c cs -> w_path c = path) -> NoDup (map (fun c => (w_pid c, w_tid c)) cs) ->
+  (forall c, In c cs -> w_path c = path) -> (forall c, In c cs -> keeps c) ->
+  NoDup (map (fun c => (w_pid c, w_tid c)) cs) ->
   let ws := fst (srun sched (sinit cs) f0) in
   let f := snd (srun sched (sinit cs) f0) in
   (forall c s r, In (c, s) ws -> nhf c -> w_pc s = PDone r ->
-     r = wresult c /\ (match r with Some e => catches c e = true | None => True end -> fs_find f (w_tmp c) = None))
+     (w_short c = [] -> r = wresult c) /\ (match r with Some e => catches c e = true | None => True end -> fs_find f (w_tmp c) = None))
   /\ ((exists c s, In (c, s) ws /\ w_pc s = PDone None) ->
       exists c d, In c cs /\ w_new c = Some d /\ fs_find f path = Some d)
   /\ (forall p, p <> path -> (forall c, In c cs -> p <> w_tmp c) -> fs_find f p = fs_find f0 p).
@@ -142,7 +202,7 @@ Print Assumptions C18_writers_end.
    the complete exposition of one of them *)
 Theorem C18_writers_all_return : forall path f0 cs sched,
   (forall c, In c cs -> w_path c = path) -> NoDup (map (fun c => (w_pid c, w_tid c)) cs) ->
-  (forall c, In c cs -> nhf c /\ fault_free c) -> cs <> [] ->
+  (forall c, In c cs -> w_short c = [] /\ nhf c /\ fault_free c) -> cs <> [] ->
   let ws := fst (srun sched (sinit cs) f0) in
   let f := snd (srun sched (sinit cs) f0) in
   (forall c s, In (c, s) ws -> exists r, w_pc s = PDone r) ->
@@ -163,7 +223,7 @@ Print Assumptions C18_writers_complete.
 (* --- non-vacuity --- *)
 Definition ex_w (pid tid : N) (colls : list coutcome) (plan : list (site * fault)) : wcfg :=
   {| w_path := s2l "m.prom"; w_pid := pid; w_tid := tid; w_nt := false; w_buffered := true;
-     w_colls := colls; w_split := []; w_plan := plan; w_catch_base := true |}.
+     w_colls := colls; w_split := []; w_plan := plan; w_short := []; w_retry := true; w_catch_base := true |}.
 
 (* a clean call over an existing target: every cut point shows old or new, the end shows new and no temporary *)
 Example C18_example_clean :
@@ -191,6 +251,18 @@ Example C18_example_faults :
   /\ wfinal c1 f0 = ({| w_pc := PDone (Some (SWrite 0%nat, EExc)); w_buf := None |}, f0)
   /\ wfinal c2 f0 = ({| w_pc := PDone (Some (SCollect 1%nat, EBase)); w_buf := None |}, f0).
 Proof. vm_compute. repeat split. Qed.
+
+(* short writes that are retried: submissions 0 and 1 are cut to 2 and 1 bytes; the call returns, target complete;
+   the retried remainder hitting a full disk (ENOSPC at submission 1) raises and leaves everything as it was *)
+Example C18_example_short :
+  let c0 := ex_w 7 9 [CYield (s2l "a 1"); CYield (s2l "b 2")] [] in
+  let sh (plan : list (site * fault)) : wcfg :=
+    {| w_path := w_path c0; w_pid := 7; w_tid := 9; w_nt := false; w_buffered := false; w_colls := w_colls c0;
+       w_split := []; w_plan := plan; w_short := [(0, 2); (1, 1)]%nat; w_retry := true; w_catch_base := true |} in
+  let f0 := [(s2l "m.prom", s2l "old")] in
+  keeps (sh []) /\ wfinal (sh []) f0 = ({| w_pc := PDone None; w_buf := None |}, [(s2l "m.prom", s2l "a 1b 2")])
+  /\ wfinal (sh [(SWrite 1%nat, (EExc, 0%nat))]) f0 = ({| w_pc := PDone (Some (SWrite 1%nat, EExc)); w_buf := None |}, f0).
+Proof. cbn zeta. split; [left; reflexivity|]. vm_compute. split; reflexivity. Qed.
 
 (* two writers, one interleaving: the hypotheses of C18_writers_all_return are satisfiable and the end is reached *)
 Example C18_example_two_writers :
